@@ -181,6 +181,19 @@ func c12Alphabet(tier string) []vEvent {
 	return out
 }
 
+// c12DotAlphabet: names that begin with dots without being "." or ".." (volume layouts such as ..data/), at the
+// first level and below a directory, next to the genuine escapes.
+func c12DotAlphabet(tier string) []vEvent {
+	paths := []string{"..", "../a", "..a", "..a/b", "..a/..", "..a/..b", "...", ".../a", ".a", ".a/b", "a", "a/..b", "a/..b/c", "a/...", "a/.b"}
+	var out []vEvent
+	for _, p := range paths {
+		for k := 0; k < 3; k++ {
+			out = append(out, vEvent{Kind: k, Path: p})
+		}
+	}
+	return out
+}
+
 // c12DeepAlphabet: a chain of directories deeper than the validator's initial
 // stack capacity, with siblings at the deep levels.
 func c12DeepAlphabet(tier string) []vEvent {
@@ -295,7 +308,7 @@ func runC12(r *evid.Run) {
 	r.Sample(map[string]any{"order_pair": []string{"a-b", "a/b"}, "real": fsutil.ComparePath("a-b", "a/b"), "spec": fsmodel.ComparePaths("a-b", "a/b")})
 
 	// ---- part 2: validator, product BFS to closure ----
-	for pass, events := range [][]vEvent{c12Alphabet(r.Tier), c12DeepAlphabet(r.Tier)} {
+	for pass, events := range [][]vEvent{c12Alphabet(r.Tier), c12DeepAlphabet(r.Tier), c12DotAlphabet(r.Tier)} {
 	type item struct{ hist []vEvent }
 	seen := map[string]bool{}
 	frontier := []item{{}}
